@@ -10,9 +10,9 @@ package reference
 // rejected with ErrInvalidURI. A parsed literal is exactly one of fragment / REST identity /
 // non-REST URI; a service base URL only accompanies an identity, and an identity always
 // comes with its type (the representation invariant URIString relies on).
-// (the REST pattern has six capturing groups; the relative part is the fourth)
+// (the REST pattern has five capturing groups; the relative part (type/id...) starts at the fourth)
 //@ func LiteralInfoFromURI(uri) (res, err)
-//@   requires reNumSub(restFHIRServiceResourceURLRegex) == 6
+//@   requires reNumSub(restFHIRServiceResourceURLRegex) == 5
 //@   ensures (err == nil) == (res != nil)
 //@   ensures err != nil ==> is(err, ErrInvalidURI)
 //@   ensures uri == "" ==> err != nil
@@ -23,11 +23,11 @@ package reference
 //@   ensures err == nil && res.identity != nil ==> res.resType != nil
 
 //@ func IdentityFromURL(url) (res, err)
-//@   requires reNumSub(restFHIRServiceResourceURLRegex) == 6
+//@   requires reNumSub(restFHIRServiceResourceURLRegex) == 5
 //@   ensures (err == nil) == (res != nil)
 //@   ensures url == "" ==> err != nil
 //@ func IdentityFromAbsoluteURL(url) (res, err)
-//@   requires reNumSub(restFHIRServiceResourceURLRegex) == 6
+//@   requires reNumSub(restFHIRServiceResourceURLRegex) == 5
 //@   ensures (err == nil) == (res != nil)
 //@   ensures url == "" ==> err != nil
 
